@@ -3,6 +3,7 @@ package props
 import (
 	"go/constant"
 	"go/token"
+	"go/types"
 	"strings"
 
 	"golang.org/x/tools/go/ssa"
@@ -20,11 +21,16 @@ func init() {
 		NeedSSA:  true,
 		Explanation: "Almost everything in this property is about numbers computed at run time (offsets, sizes, padding for all struct types, against the compiler as oracle) and is NOT decided. Decided is the one clause whose truth is in the shape of the code — 'structlayout-optimize outputs a permutation of the input fields' and 'the listing covers every field': " +
 			"the only thing optimize does to the field list is sort it through a sort.Interface whose Swap is a transposition of two elements of that same list and whose Len is its length (R19.1); pad emits every input field exactly once per loop iteration, unconditionally and in order, and everything else it emits is flagged IsPadding (R19.2); main feeds pad with the list optimize sorted and prints pad's result (R19.3); " +
-			"structlayout's sizes emits, for every field of the struct, either that field or the recursive listing of its struct type on every path, and every other element it emits is flagged IsPadding (R19.4).",
+			"structlayout's sizes emits, for every field of the struct, either that field or the recursive listing of its struct type on every path, and every other element it emits is flagged IsPadding (R19.4)." +
+			" Also decided (a necessary condition of 'no gaps or overlaps' for nested structs): offset arithmetic in structlayout's sizes and in pad keeps its frame of reference — offsets from the start of the outermost struct are never subtracted from, added to or compared with quantities relative to an inner struct (an abstract interpretation over two units; this is the rule that the lost trailing padding of nested structs, F20, violates).",
 		RuleText:    "must-pass-through path rules and value-origin checks on the SSA of the two commands",
 		Assumptions: []string{"sort.Sort only calls Len, Less and Swap of the interface it is given"},
 		Run:         runC19,
 		Mutants: []Mutant{
+			{Name: "trailing-padding-relative-size-minus-absolute-end", File: "cmd/structlayout/main.go", Rule: "R19.5", KeyPart: "sizes::offset-arithmetic-keeps-its-frame",
+				Old: "\tpad := base + s.Sizeof(typ) - field.End\n", New: "\tpad := s.Sizeof(typ) - field.End\n"},
+			{Name: "padding-compares-relative-offset-with-absolute-position", File: "cmd/structlayout/main.go", Rule: "R19.5", KeyPart: "sizes::offset-arithmetic-keeps-its-frame",
+				Old: "\tfor i := range offsets {\n\t\toffsets[i] += base\n\t}\n", New: ""},
 			{Name: "swap-duplicates-element", File: "cmd/structlayout-optimize/main.go", Rule: "R19.1", KeyPart: "Swap",
 				Old: "\ts.fields[i], s.fields[j] = s.fields[j], s.fields[i]\n", New: "\ts.fields[i], s.fields[j] = s.fields[j], s.fields[j]\n"},
 			{Name: "optimize-drops-zero-sized", File: "cmd/structlayout-optimize/main.go", Rule: "R19.2", KeyPart: "pad",
@@ -222,6 +228,20 @@ func runC19(c *Ctx) {
 		c.Check(FuncKey(m)+"::prints-pad-result", m.Pos(), printed, "what is printed is the result of pad")
 	})
 
+	// R19.5: offsets keep their frame of reference. sizes() recurses into
+	// nested structs with a base offset; every entry it emits carries offsets
+	// from the start of the OUTERMOST struct, while Sizeof/Alignof and the
+	// entries' Size are relative. Mixing the two in one subtraction or
+	// comparison is right only when base is 0 (this is what lost the trailing
+	// padding of nested structs, F20).
+	c.Rule("R19.5", func() {
+		c.Floor("R19.5", 3)
+		for _, name := range []string{"sizes"} {
+			offsetDimensionObligations(c, c.Func("cmd/structlayout", name))
+		}
+		offsetDimensionObligations(c, c.Func("cmd/structlayout-optimize", "pad"))
+	})
+
 	c.Rule("R19.4", func() {
 		c.Floor("R19.4", 2)
 		sz := c.Func("cmd/structlayout", "sizes")
@@ -316,6 +336,256 @@ func checkEmit(c *Ctx, fn *ssa.Function, isElem func(ssa.Value) bool, isElemLoad
 		}
 	}
 	c.Check(FuncKey(fn)+"::every-field-emitted", first.Pos(), t == nil, "every iteration over the input fields must emit that field (unconditionally): a field that is skipped on some path is missing from the output; path: %s", PathString(fn, path))
+}
+
+// offsetDimension is a small abstract interpretation that tells offsets from
+// the start of the outermost struct ("abs") apart from sizes and offsets that
+// are relative to something else ("rel"). A Field's Start and End are abs, its
+// Size and Align rel; a parameter called base is abs; what the size functions
+// return is rel. abs±rel = abs, abs−abs = rel, rel±rel = rel; rel−abs,
+// abs+abs and an ordering comparison between abs and rel are unit errors.
+type c19dim int
+
+const (
+	dimUnknown c19dim = iota
+	dimPoly           // constants: fit either
+	dimRel
+	dimAbs
+)
+
+func (d c19dim) String() string {
+	return [...]string{"unknown", "constant", "relative (a size, or an offset within an inner struct)", "absolute (an offset from the start of the outermost struct)"}[d]
+}
+
+func offsetDimensionObligations(c *Ctx, fn *ssa.Function) {
+	const bottom c19dim = -1 // not computed yet
+	dims := map[ssa.Value]c19dim{}
+	get := func(v ssa.Value) c19dim {
+		if _, isConst := v.(*ssa.Const); isConst {
+			return dimPoly
+		}
+		if p, ok := v.(*ssa.Parameter); ok {
+			if p.Name() == "base" {
+				return dimAbs
+			}
+			return dimUnknown
+		}
+		if d, ok := dims[v]; ok {
+			return d
+		}
+		return dimUnknown // not an instruction of this function
+	}
+	fieldDim := func(name string) c19dim {
+		switch name {
+		case "Start", "End":
+			return dimAbs
+		case "Size", "Align":
+			return dimRel
+		}
+		return dimUnknown
+	}
+	// join over alternatives; bottom and constants do not contribute
+	join := func(a, b c19dim) c19dim {
+		switch {
+		case a == bottom || a == dimPoly:
+			return b
+		case b == bottom || b == dimPoly:
+			return a
+		case a == b:
+			return a
+		}
+		return dimUnknown
+	}
+	var values []ssa.Value
+	Instrs(fn, false, func(in ssa.Instruction) {
+		if v, ok := in.(ssa.Value); ok {
+			values = append(values, v)
+			dims[v] = bottom
+		}
+	})
+	eval := func(v ssa.Value) c19dim {
+		switch x := v.(type) {
+		case *ssa.Call:
+			name := LastField(CalleeName(&x.Call))
+			if x.Call.IsInvoke() {
+				name = x.Call.Method.Name()
+			}
+			if name == "Sizeof" || name == "Alignof" {
+				return dimRel
+			}
+			return dimUnknown
+		case *ssa.Convert:
+			return get(x.X)
+		case *ssa.ChangeType:
+			return get(x.X)
+		case *ssa.Phi:
+			d := bottom
+			for _, e := range x.Edges {
+				d = join(d, get(e))
+			}
+			return d
+		case *ssa.Field:
+			if _, f := FieldOf(x.X.Type(), x.Field); f != nil && strings.HasSuffix(x.X.Type().String(), "structlayout.Field") {
+				return fieldDim(f.Name())
+			}
+			return dimUnknown
+		case *ssa.UnOp:
+			if x.Op != token.MUL {
+				return dimUnknown
+			}
+			switch a := x.X.(type) {
+			case *ssa.FieldAddr:
+				if owner, f := FieldOf(a.X.Type(), a.Field); f != nil && strings.HasSuffix(owner, "structlayout.Field") {
+					return fieldDim(f.Name())
+				}
+				return dimUnknown
+			case *ssa.IndexAddr:
+				// the operand of an in-place re-basing (offsets[i] += base): the element as it was produced
+				rebased := false
+				Instrs(fn, false, func(in ssa.Instruction) {
+					st, ok := in.(*ssa.Store)
+					if !ok {
+						return
+					}
+					if sa, ok := st.Addr.(*ssa.IndexAddr); ok && sa.X == a.X && sa.Index == a.Index && Derives(st.Val, func(y ssa.Value) bool { return y == ssa.Value(x) }) {
+						rebased = true
+					}
+				})
+				if rebased {
+					if Derives(a.X, func(y ssa.Value) bool {
+						call, ok := y.(*ssa.Call)
+						return ok && strings.HasSuffix(strings.ToLower(LastField(CalleeName(&call.Call))), "offsetsof")
+					}) {
+						return dimRel
+					}
+					return dimUnknown
+				}
+				// an element of a list: what was stored into the list's elements in this function
+				d := bottom
+				n := 0
+				Instrs(fn, false, func(in ssa.Instruction) {
+					st, ok := in.(*ssa.Store)
+					if !ok {
+						return
+					}
+					if ia, ok := st.Addr.(*ssa.IndexAddr); ok && ia.X == a.X {
+						n++
+						d = join(d, get(st.Val))
+					}
+				})
+				if n == 0 {
+					// filled elsewhere: what an Offsetsof function returns is relative to the struct it was asked about
+					if Derives(a.X, func(y ssa.Value) bool {
+						call, ok := y.(*ssa.Call)
+						return ok && strings.HasSuffix(strings.ToLower(LastField(CalleeName(&call.Call))), "offsetsof")
+					}) {
+						return dimRel
+					}
+					return dimUnknown
+				}
+				return d
+			case *ssa.Alloc:
+				d := bottom
+				Instrs(fn, false, func(in ssa.Instruction) {
+					if st, ok := in.(*ssa.Store); ok && st.Addr == ssa.Value(a) {
+						d = join(d, get(st.Val))
+					}
+				})
+				return d
+			}
+			return dimUnknown
+		case *ssa.BinOp:
+			l, r := get(x.X), get(x.Y)
+			if l == bottom || r == bottom {
+				return bottom
+			}
+			if l == dimPoly {
+				l = dimRel
+			}
+			if r == dimPoly {
+				r = dimRel
+			}
+			switch {
+			case l == dimUnknown || r == dimUnknown:
+				return dimUnknown
+			case x.Op == token.ADD && l == dimAbs && r == dimAbs:
+				return dimAbs // a unit error, reported below; keep a definite kind so that it does not hide others
+			case x.Op == token.ADD:
+				if l == dimAbs || r == dimAbs {
+					return dimAbs
+				}
+				return dimRel
+			case x.Op == token.SUB && l == dimAbs && r == dimAbs:
+				return dimRel
+			case x.Op == token.SUB && l == dimAbs:
+				return dimAbs
+			case x.Op == token.SUB && r == dimAbs:
+				return dimRel // a unit error, reported below
+			case x.Op == token.SUB:
+				return dimRel
+			}
+			return dimUnknown
+		}
+		return dimUnknown
+	}
+	for round := 0; round < 30; round++ {
+		changed := false
+		for _, v := range values {
+			nd := eval(v)
+			old := dims[v]
+			// monotone: bottom → {rel, abs, poly} → unknown
+			if old != bottom && old != nd && nd != bottom {
+				nd = dimUnknown
+			}
+			if nd != old && !(nd == bottom) {
+				dims[v] = nd
+				changed = true
+			}
+		}
+		if !changed {
+			break
+		}
+	}
+	dim := func(v ssa.Value) c19dim {
+		d := get(v)
+		if d == bottom {
+			return dimUnknown
+		}
+		return d
+	}
+	n := 0
+	Instrs(fn, false, func(in ssa.Instruction) {
+		x, ok := in.(*ssa.BinOp)
+		if !ok {
+			return
+		}
+		if b, isBasic := x.X.Type().Underlying().(*types.Basic); !isBasic || b.Info()&types.IsInteger == 0 {
+			return
+		}
+		l, r := dim(x.X), dim(x.Y)
+		if l == dimUnknown || r == dimUnknown || l == dimPoly || r == dimPoly {
+			return
+		}
+		bad := ""
+		switch x.Op {
+		case token.SUB:
+			if l == dimRel && r == dimAbs {
+				bad = "subtracts an absolute offset from a relative quantity"
+			}
+		case token.ADD:
+			if l == dimAbs && r == dimAbs {
+				bad = "adds two absolute offsets"
+			}
+		case token.LSS, token.LEQ, token.GTR, token.GEQ, token.EQL, token.NEQ:
+			if l != r {
+				bad = "compares an absolute offset with a relative quantity"
+			}
+		default:
+			return
+		}
+		n++
+		c.Check(FuncKey(fn)+"::offset-arithmetic-keeps-its-frame#"+itoa(n), x.Pos(), bad == "", "this expression %s (left operand: %s; right operand: %s): the result is only right for a struct that starts at offset 0, so nested structs are laid out with gaps or overlaps", bad, l, r)
+	})
 }
 
 func c19True(v ssa.Value) bool {
